@@ -11,7 +11,8 @@
 EXTENDS ProfileMath, TLC, FiniteSets, SequencesExt
 
 CONSTANTS Rates,      \* set of milli-rps values
-          DursMs      \* set of durations in ms
+          DursMs,     \* set of durations in ms
+          MaxC        \* upper bound of the counts searched (above max rate * max duration of the grid)
 
 VARIABLE gi
 
@@ -41,7 +42,6 @@ Bisect(q, k, lo, hi) ==
          IN  IF CumGE(q, k, mid) THEN Bisect(q, k, lo, mid) ELSE Bisect(q, k, Add(mid, <<1>>), hi)
 Earliest(q, k) == Bisect(q, k, <<>>, q.dur)
 
-MaxC == 40
 Counts(q) == {c \in 0..MaxC : CountOK(q, c)}
 
 CountInv == LET cs == Counts(p)
